@@ -163,6 +163,7 @@ func TestC07EnumCosts(t *testing.T) {
 
 func genC07(t *rapid.T) c07Case {
 	c := c07Case{World: cfggen.GenWorld(t), Format: rapid.SampledFrom([]string{"yaml", "yaml", "json"}).Draw(t, "format")}
+	drawExtraKeys(t, &c.World.Cfg)
 	if rapid.IntRange(0, 2).Draw(t, "bad_values") == 0 {
 		i := rapid.IntRange(0, len(c.World.Cfg.Users)-1).Draw(t, "bad_user")
 		addBadService(t, &c.World.Cfg.Users[i])
@@ -176,6 +177,20 @@ func genC07(t *rapid.T) c07Case {
 	// unknown users, also with names outside US-ASCII (UTF-8 and plain high bytes)
 	names = append(names, "mallory", "j\xc3\xbcrgen", "\xff\xfe", "m\x80llory")
 	user := func() string { return rapid.SampledFrom(names).Draw(t, "user") }
+	// users of the scope that have command rules (own or through a group): the command authorizer's
+	// refusal and permission paths are reached only through them
+	var ruled []string
+	for _, n := range names {
+		if eu, ok := w.Cfg.ScopeUsers(cfggen.ScopeA)[n]; ok {
+			k := len(eu.User.Commands)
+			for _, g := range eu.User.Groups {
+				k += len(g.Commands)
+			}
+			if k > 0 {
+				ruled = append(ruled, n)
+			}
+		}
+	}
 	// text for port / rem_addr: mostly plain, sometimes control or high bytes
 	text := func(label, plain string) model.B {
 		switch rapid.IntRange(0, 7).Draw(t, label+"_kind") {
@@ -189,7 +204,7 @@ func genC07(t *rapid.T) c07Case {
 	pending := map[int][]authPkt{}
 	for i := 0; i < n; i++ {
 		s := c07Step{Sess: rapid.IntRange(0, len(c07Sessions)-1).Draw(t, "sess"), SeqMode: "next"}
-		kind := rapid.SampledFrom([]string{"authen", "authen", "authen", "author-cmd", "author-session", "author-session", "acct", "foreign-body", "corrupt", "giant-user", "seq", "bad-header", "oversize", "wrong-key", "max-seq"}).Draw(t, "kind")
+		kind := rapid.SampledFrom([]string{"authen", "authen", "authen", "author-cmd", "author-cmd", "author-session", "author-session", "acct", "foreign-body", "corrupt", "giant-user", "seq", "bad-header", "oversize", "wrong-key", "max-seq"}).Draw(t, "kind")
 		// mostly carry on with an exchange that is under way (on whichever session it is)
 		var under []int
 		for k := 0; k < len(c07Sessions); k++ {
@@ -238,7 +253,11 @@ func genC07(t *rapid.T) c07Case {
 				margs = append(margs, model.B(a))
 			}
 			s.Path, s.Type = kind, 2
-			s.Body = model.AuthorRequest{Method: 6, Priv: 1, AType: 1, Service: 1, User: model.B(user()), Port: text("port", "tty0"), RemAddr: text("rem", "r"), Args: margs}.Encode()
+			u := user()
+			if kind == "author-cmd" && len(ruled) > 0 && rapid.Bool().Draw(t, "user_with_rules") {
+				u = rapid.SampledFrom(ruled).Draw(t, "ruled_user")
+			}
+			s.Body = model.AuthorRequest{Method: 6, Priv: 1, AType: 1, Service: 1, User: model.B(u), Port: text("port", "tty0"), RemAddr: text("rem", "r"), Args: margs}.Encode()
 		case "acct":
 			s.Path, s.Type = "acct", 3
 			s.Body = model.AcctRequest{Flags: rapid.SampledFrom([]byte{2, 4, 8, 0x0a, 0x0c, 0, 3}).Draw(t, "acct_flags"), Method: 6, Priv: 1, AType: 1, Service: 1,
